@@ -13,7 +13,7 @@ import vlib
 from vlib import enc_str, dec_str
 
 THEOREMS = [
-    "C11_refines", "C11_refines_step", "C11_nopanic", "C11_pop_empty", "C11_push_spec", "C11_pop_spec",
+    "C11_tables", "C11_refines", "C11_refines_step", "C11_nopanic", "C11_pop_empty", "C11_push_spec", "C11_pop_spec",
     "C11_unset_spec", "C11_lifo", "C11_lifo_M", "C11_names", "C11_pol_agree", "C11_nonvacuous",
 ]
 EXE = ".cache/cargo-target/release/c11"
@@ -136,6 +136,23 @@ def rand_history(rng, maxlen, maxdepth):
     return ops, info
 
 
+def replay(ck, data):
+    """vcheck C11 --replay file: re-run the recorded history on both sides"""
+    wire = data.get("wire")
+    if wire is None:
+        print("replay: this file names a broken obligation, not an input; re-run the check itself")
+        return 1
+    ck.ocaml_build()
+    ck.harness_build(["c11"])
+    m, i = ck.model([wire])[0], ck.impl([wire])[0]
+    print("history:        ", [show(x) for x in wire.split("\t")[1:]])
+    print("model:          " + m)
+    print("implementation: " + i)
+    same = m == i or ck.model(["H0" + wire[1:]])[0] == i
+    print("REPLAY: " + ("agree now" if same else "still disagree"))
+    return 0 if same else 1
+
+
 def run(ck):
     ck.gen_from_source()
     ck.coq_build(["props/C11.vo", "extract/C11_extract.vo"])
@@ -249,6 +266,16 @@ def run(ck):
             n_exh += len(chunk)
             compare(chunk, "exhaustive len 4 (%d ops)" % len(SMALL))
         stats["maxlen"] = 4
+        if thorough:
+            S5 = small_alphabet(False)
+            it = itertools.product(S5, repeat=5)
+            while len(ck.violations) < 5:
+                chunk = ["\t".join(("H",) + p) for p in itertools.islice(it, 120000)]
+                if not chunk:
+                    break
+                n_exh += len(chunk)
+                compare(chunk, "exhaustive len 5 (%d ops)" % len(S5))
+            stats["maxlen"] = 5
         samples.append([show(s) for s in (FULL[3], FULL[-7], FULL[-2])])
         # random long histories
         rl = []
